@@ -84,7 +84,7 @@ def run_c06(pid, tier, seed):
     violations = list(rep["violations"])
     # the same two implications over expression trees: `10 PRINT e`, `10 X = e`, `10 A$ = e`
     import concurrent.futures as cf
-    groups = [["un", "bin"], ["left"]] if q else [["un", "bin", "unbin"], ["left"], ["right"]]
+    groups = [["un", "bin", "lists"], ["left"]] if q else [["un", "bin", "unbin", "lists"], ["left"], ["right"]]
 
     def expr_group(i):
         gcfg = ("INIT Init\nNEXT Next\nCONSTANT Shapes = {" + ", ".join(f'"{x}"' for x in groups[i]) + "}\nCONSTANT EmitRows = TRUE\n"
